@@ -4,28 +4,43 @@
 (* how many goroutines run, how many calls each makes and how the calls are   *)
 (* distributed over the actions of LoggerCid (New / Alias / Log, in percent). *)
 (* What the execution must look like is decided by Trace_LoggerCid.           *)
+(* A second dimension is how logging calls are given their operands           *)
+(* (LoggerCid!Lit / Win): written out in the call, a window of the            *)
+(* goroutine's own slice used again call after call, or a window of a slice   *)
+(* all goroutines pass read-only at the same time - in percent - and the      *)
+(* capacities of those slices (every window length 1..cap is used, so the     *)
+(* spare capacity behind a window sweeps cap-1..0).                           *)
 EXTENDS Naturals, FiniteSets, TLC, Json
 CONSTANTS Goroutines,   \* goroutines of a run
           Calls,        \* calls of a run, shared out evenly: ops = Calls \div n per goroutine
           Reps,         \* repetitions of a descriptor (each a different seed)
           Shared,       \* contexts made by the main goroutine before the others start
           MixNames,
+          OpndNames,   \* operand mixes
+          Caps,        \* capacities of the caller-owned operand slices of a run (all of them in every run)
           Closers      \* is the writer handed to Switch also an io.Closer? {TRUE, FALSE}: both for every
                        \* descriptor; {}: one of the two, alternating over goroutine counts and mixes
-VARIABLES n, ops, mix, shared, closer, rep
-vars == <<n, ops, mix, shared, closer, rep>>
+VARIABLES n, ops, mix, shared, closer, rep, opnd
+vars == <<n, ops, mix, shared, closer, rep, opnd>>
 
 \* percent of calls per action of LoggerCid
 Mix(name) == CASE name = "create"   -> [name |-> name, new |-> 75, alias |-> 25, log |-> 0]
                [] name = "log"      -> [name |-> name, new |-> 4,  alias |-> 4,  log |-> 92]
                [] name = "balanced" -> [name |-> name, new |-> 30, alias |-> 20, log |-> 50]
 
+\* percent of logging calls per way of passing the operands
+Opnd(name) == CASE name = "lit"   -> [name |-> name, lit |-> 100, own |-> 0,  shared |-> 0]
+                [] name = "mixed" -> [name |-> name, lit |-> 40,  own |-> 30, shared |-> 30]
+                [] name = "reuse" -> [name |-> name, lit |-> 10,  own |-> 45, shared |-> 45]
+
 Pos(x, S) == Cardinality({y \in S : y < x})
 MixPos(m) == CASE m = "create" -> 0 [] m = "log" -> 1 [] m = "balanced" -> 2
 
 GenInit == /\ n \in Goroutines /\ ops \in {c \div n : c \in Calls} /\ shared \in Shared /\ rep \in Reps
            /\ mix \in {Mix(m) : m \in MixNames}
+           /\ opnd \in {Opnd(o) : o \in OpndNames}
            /\ closer \in (IF Closers # {} THEN Closers ELSE {(Pos(n, Goroutines) + MixPos(mix.name)) % 2 = 1})
 GenNext == UNCHANGED vars
-Emit == PrintT(<<"CASE", ToJson([n |-> n, ops |-> ops, mix |-> mix, shared |-> shared, closer |-> closer, rep |-> rep])>>)
+Emit == PrintT(<<"CASE", ToJson([n |-> n, ops |-> ops, mix |-> mix, shared |-> shared, closer |-> closer, rep |-> rep,
+                               opnd |-> opnd, caps |-> Caps])>>)
 =============================================================================
